@@ -63,24 +63,26 @@ DyHueBits1(d) == DyHueBits2(DyMin(d, DyMin(DyAbs(DySub(d, Dy360)), DyAbs(DySub(d
 DyHueBits(h1, h2) == IF h1 = h2 THEN 200 ELSE DyHueBits1(DyAbs(DySub(h1, h2)))
 
 -----------------------------------------------------------------------------
-(* Domain.  CAT16 (Li et al. 2017, eq. (3)): cone-like responses (R, G, B) = M16 (X, Y, Z).      *)
-M16 == << FxDec(1, 0, <<4012, 8800>>), FxDec(1, 0, <<6501, 7300>>), FxDec(-1, 0, <<514, 6100>>),
-          FxDec(-1, 0, <<2502, 6800>>), FxDec(1, 1, <<2044, 1400>>), FxDec(1, 0, <<458, 5400>>),
-          FxDec(-1, 0, <<20, 7900>>), FxDec(1, 0, <<489, 5200>>), FxDec(1, 0, <<9531, 2700>>) >>
-Cone(x) == FxMatVec(M16, x)
-Median3(a, b, d) == FxMax(FxMin(a, b), FxMin(FxMax(a, b), d))
+(* Domain.  CAT16 (Li et al. 2017, eq. (3)): cone-like responses (R, G, B) = M16 (X, Y, Z); the matrix is published
+   with six decimals, so 10^6 M16 is an integer matrix and the responses of a recorded colour are computed exactly. *)
+M16E6 == << 401288, 650173, -51461,
+            -250268, 1204414, 45854,
+            -2079, 48952, 953127 >>
+ConeRow(x, i) == DyAdd(DyMulInt(x[1], M16E6[3 * i - 2]), DyAdd(DyMulInt(x[2], M16E6[3 * i - 1]), DyMulInt(x[3], M16E6[3 * i])))
+Cone(x) == <<ConeRow(x, 1), ConeRow(x, 2), ConeRow(x, 3)>>          \* 10^6 (R, G, B), x a vector of dyadics
+DyMedian3(a, b, d) == DyMax(DyMin(a, b), DyMin(DyMax(a, b), d))
 (* CAM16 is defined where the achromatic signal A = N_bb (2 R_a + G_a + B_a/20) is positive (J = 100 (A/A_w)^(c z))
    and t >= 0, i.e. R_a + G_a + 21/20 B_a + 0.305 > 0.  The adapted responses are sign(c) f(D_c |c|) with f increasing
-   and compressive (f(a y) <= 0.37 f(y) for a <= 1/12 over the whole range used) and D_c within [0.92, 1.2] for the
-   whites D65, D50, E.  Sufficient, from the input alone:
+   and compressive (f(a y) <= 0.4 f(y) for a <= 1/10 over the whole range used) and D_c within [0.84, 1.31] for the
+   whites D65, D50, E and the custom whites of the harness.  Sufficient, from the input alone:
      - all three cone responses non-negative (contains the whole sRGB gamut: its primaries have positive responses), or
      - the sign-sensitive collar: one response negative, at most 1/16 of the smaller of the other two in magnitude.
    Inputs below 2^-34 in magnitude (other than exact black) are not judged (underflow of f32 intermediates). *)
-InDomain2(x, mn, mid) == /\ FxLe(FxEps(34), Mag3(x))
-                         /\ (~FxIsNeg(mn) \/ FxLe(FxMulInt(FxNeg(mn), 16), mid))
-InDomain1(x, c) == InDomain2(x, FxMin(c[1], FxMin(c[2], c[3])), Median3(c[1], c[2], c[3]))
+InDomain2(x, mn, mid) == /\ DyLe(DyPow2(-34), DyMag3(x))
+                         /\ (DySign(mn) >= 0 \/ DyLe(DyMulInt(DyNeg(mn), 16), mid))
+InDomain1(x, c) == InDomain2(x, DyMin(c[1], DyMin(c[2], c[3])), DyMedian3(c[1], c[2], c[3]))
 InDomain(x) == InDomain1(x, Cone(x))
-InCollar1(x, c) == InDomain1(x, c) /\ FxIsNeg(FxMin(c[1], FxMin(c[2], c[3])))
+InCollar1(x, c) == InDomain1(x, c) /\ DySign(DyMin(c[1], DyMin(c[2], c[3]))) < 0
 InCollar(x) == InCollar1(x, Cone(x))
 
 -----------------------------------------------------------------------------
@@ -194,7 +196,7 @@ ConvBits1(e, x, full) ==
     sat |-> SatLinkBits(DyMul(full[6], full[6]), full[4], full[5]),
     wj  |-> IF e.w = 1 THEN DyRelBits(full[1], DyFromInt(100)) ELSE 200 ]
 ConvBits(e) == ConvBits1(e, DyV(e.x), DyV(e.full))
-ConvJudged(e) == e.panic = 0 /\ AllFin(e.x) /\ ~IsZeroV(e.x) /\ InDomain(FxV(e.x)) /\ ConvFinite(e)
+ConvJudged(e) == e.panic = 0 /\ AllFin(e.x) /\ ~IsZeroV(e.x) /\ InDomain(DyV(e.x)) /\ ConvFinite(e)
 ConvVerdict(b, t) ==
   IF b.rtf < RtThr(t) THEN "full-round-trip"
   ELSE IF b.rtp < RtThr(t) THEN "partial-round-trip"
@@ -203,25 +205,28 @@ ConvVerdict(b, t) ==
   ELSE IF b.sat < LinkThr(t) THEN "saturation-link"
   ELSE IF b.wj < AttrThr(t) THEN "white-not-100"
   ELSE "ok"
-ConvWhy(e) ==
+(* b = ConvBits(e): an operator argument is evaluated at most once, and only if it is used *)
+ConvWhyB(e, b) ==
   IF e.panic = 1 THEN "panic"
   ELSE IF ~AllFin(e.x) THEN "ok"
   ELSE IF IsZeroV(e.x) THEN (IF BlackOK(e) THEN "ok" ELSE "black-not-black")
-  ELSE IF ~InDomain(FxV(e.x)) THEN "ok"
+  ELSE IF ~InDomain(DyV(e.x)) THEN "ok"
   ELSE IF ~ConvFinite(e) THEN "non-finite"
   ELSE IF e.proj # Project(e.full, e.pk) THEN "projection-not-exact"
-  ELSE ConvVerdict(ConvBits(e), e.t)
+  ELSE ConvVerdict(b, e.t)
+ConvWhy(e) == ConvWhyB(e, ConvBits(e))
 
 (* A `pair` event: two colours x1, x2 converted under the same params; f1, f2 their full attribute vectors *)
-PairInDomain(e) == (IsZeroV(e.x1) \/ InDomain(FxV(e.x1))) /\ (IsZeroV(e.x2) \/ InDomain(FxV(e.x2)))
+PairInDomain(e) == (IsZeroV(e.x1) \/ InDomain(DyV(e.x1))) /\ (IsZeroV(e.x2) \/ InDomain(DyV(e.x2)))
 PairJudged(e) == e.panic = 0 /\ AllFin(e.x1) /\ AllFin(e.x2) /\ PairInDomain(e) /\ AllFin(e.f1) /\ AllFin(e.f2)
-PairWhy(e) ==
+PairWhyB(e, b) ==
   IF e.panic = 1 THEN "panic"
   ELSE IF ~(AllFin(e.x1) /\ AllFin(e.x2)) THEN "ok"
   ELSE IF ~PairInDomain(e) THEN "ok"
   ELSE IF ~(AllFin(e.f1) /\ AllFin(e.f2)) THEN "non-finite"
-  ELSE IF PairBits(DyV(e.f1), DyV(e.f2)) < LinkThr(e.t) THEN "attribute-ratios"
+  ELSE IF b < LinkThr(e.t) THEN "attribute-ratios"
   ELSE "ok"
+PairWhy(e) == PairWhyB(e, PairBits(DyV(e.f1), DyV(e.f2)))
 
 (* A `ucs` event: jmh (Cam16Jmh: J, M, h) -> ujmh (Cam16UcsJmh) -> ujab (Cam16UcsJab) -> ujmhb (Cam16UcsJmh) ->
    jmhb (Cam16Jmh); ujabd = Cam16UcsJab from jmh and jmhd = Cam16Jmh from ujab by the derived routes;
@@ -252,11 +257,12 @@ UcsVerdict(b, t) ==
   ELSE IF b.im < UcsThr(t) THEN "ucs-colourfulness-inverse"
   ELSE IF b.rt < UcsRtThr(t) THEN "ucs-round-trip"
   ELSE "ok"
-UcsWhy(e) ==
+UcsWhyB(e, b) ==
   IF e.panic = 1 THEN "panic"
   ELSE IF ~AllFin(e.jmh) \/ ~UcsInDomain(DyV(e.jmh)) THEN "ok"
   ELSE IF ~UcsFinite(e) THEN "non-finite"
   ELSE IF e.ujmh[3] # e.jmh[3] THEN "ucs-hue-not-copied"
   ELSE IF DyLe(Dy(e.ujmh[1]), DyFromInt(100)) /\ e.ujmhc # e.ujmh THEN "clamped-differs-in-bounds"
-  ELSE UcsVerdict(UcsBits(e), e.t)
+  ELSE UcsVerdict(b, e.t)
+UcsWhy(e) == UcsWhyB(e, UcsBits(e))
 =============================================================================
